@@ -15,7 +15,7 @@ def selfClosed : PC → Bool
 
 /-- states of a connection whose CONNECT was answered 200: copying, or on its way out -/
 def tunPath : PC → Bool
-  | .tunnel | .deferredClose | .counterDec | .waitingForLockUnreg | .lockedUnreg | .deleted
+  | .tunnel | .deferredClose | .closingSock | .counterDec | .waitingForLockUnreg | .lockedUnreg | .deleted
   | .unregistered => true
   | _ => false
 
